@@ -425,6 +425,34 @@ def errpath_of(exc):
     return getattr(exc, "ref_path", None)
 
 
+def schema_signature(cinco, schema, depth=0):
+    """A structural fingerprint of a schema: its fields in order, each with its class and its plain
+    attributes (recursively through nested schemas, config types and item fields).  Operations on
+    configurations never change it (C13)."""
+    def plain(v):
+        if isinstance(v, (str, int, float, bool, bytes, type(None))):
+            return repr(v)
+        if isinstance(v, (list, tuple)):
+            return [plain(i) for i in v]
+        if isinstance(v, dict):
+            return sorted((repr(k), plain(x)) for k, x in v.items())
+        if isinstance(v, cinco.core.BaseField):
+            return field_sig(v)
+        return type(v).__name__
+
+    def field_sig(f):
+        if depth > 6:
+            return type(f).__name__
+        if isinstance(f, cinco.Schema):
+            return schema_signature(cinco, f, depth + 1)
+        if isinstance(f, cinco.core.ConfigTypeField):
+            return ("ctype", schema_signature(cinco, f.config_type.__schema__, depth + 1))
+        attrs = sorted((k, plain(v)) for k, v in vars(f).items() if not k.startswith("__") and k not in ("_schema", "schema") and not callable(v))
+        return (type(f).__name__, attrs)
+
+    return [(k, field_sig(f)) for k, f in schema._fields.items()]
+
+
 def collect_strings(x, into):
     """Every text leaf of an abstract value / descriptor (candidate plaintexts of digests)."""
     if isinstance(x, dict):
@@ -460,6 +488,7 @@ class World:
             self.saved_env[k] = os.environ.get(k)
             os.environ[k] = v
         self.schema = build_schema_topdown(cinco, schema_desc, root)
+        self.schema_sig = schema_signature(cinco, self.schema)
         self.cfgs = {}
         self.keep = []  # keep replaced objects alive so that id() stays unambiguous
         for n in ("c1", "c2"):
@@ -481,9 +510,15 @@ class World:
         if self.plaintexts is not None:
             KNOWN_PLAINTEXTS[:] = sorted(self.plaintexts)
         out = {}
+        schema_now = schema_signature(self.cinco, self.schema)
         for n, c in self.cfgs.items():
             if c is None:
                 out[n] = {"t": "none"}
+                continue
+            if schema_now != self.schema_sig:
+                # (the schema is no state variable of the specification: it never changes)
+                changed = [k for (k, a), (_k, b) in zip(schema_now, self.schema_sig) if a != b] or ["<fields added or removed>"]
+                out[n] = {"t": "schema-changed", "why": "the schema itself differs from what it was when the configurations were built: %s" % changed[:4]}
                 continue
             why = read_only_queries(self.cinco, c)
             out[n] = project_cfg(self.cinco, c, self.root) if why is None else {"t": "inconsistent-reads", "why": why}
